@@ -55,6 +55,36 @@ func fsdurFaultWork(args []string) int {
 		fmt.Printf("RESULT fault first=%v syncs=%s\n", res[0] == 'e', res)
 		return 0
 	}
+	if variant == "d" {
+		// Delete of one segment file, three attempts: the directory fsync of the first one is the call made to fail
+		vdir := filepath.Join(dir, "vfsfault")
+		os.MkdirAll(vdir, 0o755)
+		name := "00000000000000000001-0000000000000009.wal"
+		v := fs.New()
+		f, err := v.Create(vdir, name, 4096)
+		if err != nil {
+			fmt.Println("RESULT create-err", err)
+			return 1
+		}
+		f.WriteAt([]byte("12345678"), 0)
+		f.Sync()
+		f.Close()
+		res := ""
+		marker("fault-target")
+		for i := 0; i < 3; i++ {
+			marker("vfs-begin hdelete " + name)
+			err := v.Delete(vdir, name)
+			if err != nil {
+				marker("vfs-end err")
+				res += "e"
+			} else {
+				marker("vfs-end ok")
+				res += "o"
+			}
+		}
+		fmt.Printf("RESULT fault first=%v deletes=%s\n", res[0] == 'e', res)
+		return 0
+	}
 	wdir := filepath.Join(dir, "walfault"+variant)
 	os.MkdirAll(wdir, 0o755)
 	marker("op-begin open 4096")
@@ -157,7 +187,7 @@ const fsdurTraceSet = "trace=openat,fallocate,pwrite64,write,fsync,fdatasync,unl
 // fsdurFault runs both variants (fresh log; segment created by a rotation) and returns violations and notes
 func fsdurFault(base string, rep *Report, shapes map[string]bool, c *Case) []Violation {
 	var viols []Violation
-	for _, vm := range []string{"0 file", "1 file", "0 dir", "1 dir", "h file", "h dir"} {
+	for _, vm := range []string{"0 file", "1 file", "0 dir", "1 dir", "h file", "h dir", "d dir"} {
 		variant, mode := strings.Fields(vm)[0], strings.Fields(vm)[1]
 		dir, err := os.MkdirTemp(base, "verif-fsdurf-")
 		if err != nil {
@@ -218,6 +248,46 @@ func fsdurFault(base string, rep *Report, shapes map[string]bool, c *Case) []Vio
 				rep.Dist["fsync-fault:retry-acknowledged-"+mode]++
 			}
 			evs, _ := parseTrace(tr2, run)
+			if variant == "d" {
+				// correspondence with Model.OsFs.fsDeleteF, and the contract itself: a Delete that returns nil has been
+				// preceded, since the unlink of the name, by a successful fsync of the directory
+				var parts []string
+				var cur []sysEv
+				in := false
+				name := ""
+				pendingUnlink := false
+				for _, e := range evs {
+					if e.call != "marker" {
+						if in {
+							cur = append(cur, e)
+						}
+						continue
+					}
+					if strings.HasPrefix(e.arg, "vfs-begin hdelete ") {
+						in, cur, name = true, nil, strings.TrimPrefix(e.arg, "vfs-begin hdelete ")
+					} else if strings.HasPrefix(e.arg, "vfs-end") && in {
+						for _, x := range cur {
+							if x.call == "unlink" {
+								pendingUnlink = true
+							}
+							if x.call == "fsync-dir" && pendingUnlink {
+								pendingUnlink = false
+							}
+						}
+						r := strings.TrimPrefix(e.arg, "vfs-end ")
+						if r == "ok" && pendingUnlink {
+							viols = append(viols, Violation{Property: "C07", What: "a segment deletion was reported done with no successful directory fsync since its unlink",
+								Detail: fmt.Sprintf("Delete attempt %d of %s returned nil; system calls of the attempt: %s (fsync #%d of the thread failed with EIO in the first attempt)", len(parts)+1, name, canonSeq(cur), n)})
+						}
+						parts = append(parts, canonSeq(cur)+" -> "+r)
+						in = false
+					}
+				}
+				c.Ops = append(c.Ops, fmt.Sprintf("hdeletes %s 0 1 1", name))
+				c.Impl = append(c.Impl, strings.Join(parts, " | "))
+				shapes["hdeletes:"+strings.Join(parts, " | ")] = true
+				return
+			}
 			if variant == "h" {
 				// correspondence with Model.OsFs.fileSync: per Sync, the system calls that took effect and the answer
 				var parts []string
